@@ -11,34 +11,47 @@ from common import REPO
 COQ = os.environ.get("VERIF_COQ", "/verif/coq")
 
 
-def check(ctx):
+TIES = {
+    # which -> (what, translate(), checked-in generated file, equivalence file, its import line, the replacement, theorems)
+    "scanner": ("Scanner.includes / Scanner.is_last (csvpath/scanning/scanner.py)", lambda: py2v.translate(os.path.join(REPO, "csvpath", "scanning", "scanner.py")),
+                ("Scan", "ScanSrc.v"), ("Scan", "ScanSrcEq.v"), "From V Require Import Scan.ScanModel Scan.PySem Scan.ScanSrc.",
+                "From V Require Import Scan.ScanModel Scan.PySem.\nFrom Tie Require Import ScanSrc.", "includes_src_eq, is_last_src_eq"),
+    "errors": ("ErrorCommsManager.do_i_* / ErrorHandler._handle_if (csvpath/util/error.py)", lambda: __import__("err2v").translate(REPO),
+               ("Match", "ErrSrc.v"), ("Match", "ErrSrcEq.v"), "From V Require Import Scan.PySem Match.ErrEv Match.ErrSrc Match.Errors.",
+               "From V Require Import Scan.PySem Match.ErrEv Match.Errors.\nFrom Tie Require Import ErrSrc.", "do_i_*_src_eq, handle_if_src_eq"),
+}
+
+
+def check(ctx, which="scanner"):
     """-> dict(status: 'identical' | 'reproved' | 'untranslatable' | 'unproved', detail)"""
-    src = os.path.join(REPO, "csvpath", "scanning", "scanner.py")
+    what, translate, gen, eqf, imp, imp_new, thms = TIES[which]
     try:
-        text = py2v.translate(src)
+        text = translate()
     except py2v.Unsupported as ex:
-        return {"status": "untranslatable", "detail": "harness/py2v.py cannot translate Scanner.includes / Scanner.is_last any more: " + str(ex)[:300]}
+        return {"status": "untranslatable", "detail": f"the translator cannot translate {what} any more: " + str(ex)[:300]}
     except Exception as ex:  # noqa
         return {"status": "untranslatable", "detail": type(ex).__name__ + ": " + str(ex)[:300]}
-    with open(os.path.join(COQ, "Scan", "ScanSrc.v"), encoding="utf-8") as fh:
+    with open(os.path.join(COQ, *gen), encoding="utf-8") as fh:
         committed = fh.read()
     if text.strip() == committed.strip():
-        return {"status": "identical", "detail": "regenerated Scan/ScanSrc.v is the checked-in one; Scan/ScanSrcEq.vo (includes_src_eq, is_last_src_eq) built by the full .vo build"}
-    d = os.path.join(ctx.scratch, "tie")
+        return {"status": "identical", "detail": f"regenerated {'/'.join(gen)} is the checked-in one; {'/'.join(eqf)}o ({thms}) built by the full .vo build"}
+    d = os.path.join(ctx.scratch, "tie_" + which)
     os.makedirs(d, exist_ok=True)
-    with open(os.path.join(d, "ScanSrc.v"), "w", encoding="utf-8") as fh:
+    with open(os.path.join(d, gen[1]), "w", encoding="utf-8") as fh:
         fh.write(text)
-    with open(os.path.join(COQ, "Scan", "ScanSrcEq.v"), encoding="utf-8") as fh:
+    with open(os.path.join(COQ, *eqf), encoding="utf-8") as fh:
         eq = fh.read()
-    eq = eq.replace("From V Require Import Scan.ScanModel Scan.PySem Scan.ScanSrc.", "From V Require Import Scan.ScanModel Scan.PySem.\nFrom Tie Require Import ScanSrc.")
-    with open(os.path.join(d, "ScanSrcEq.v"), "w", encoding="utf-8") as fh:
+    if imp not in eq:
+        return {"status": "unproved", "detail": "import line of " + eqf[1] + " not found"}
+    eq = eq.replace(imp, imp_new)
+    with open(os.path.join(d, eqf[1]), "w", encoding="utf-8") as fh:
         fh.write(eq)
-    for f in ("ScanSrc.v", "ScanSrcEq.v"):
+    for f in (gen[1], eqf[1]):
         try:
             r = subprocess.run(["timeout", "300", "coqc", "-Q", COQ, "V", "-Q", d, "Tie", os.path.join(d, f)], capture_output=True, text=True)
         except Exception as ex:  # noqa
             return {"status": "unproved", "detail": f"coqc {f}: {type(ex).__name__}"}
         if r.returncode != 0:
-            return {"status": "unproved", "detail": f"the source of Scanner.includes / Scanner.is_last changed and coq/Scan/ScanSrcEq.v no longer checks against the regenerated definitions ({f}): "
+            return {"status": "unproved", "detail": f"the source of {what} changed and coq/{'/'.join(eqf)} no longer checks against the regenerated definitions ({f}): "
                                                     + (r.stderr or r.stdout)[-400:], "generated": text[:3000]}
-    return {"status": "reproved", "detail": "the source of Scanner.includes / Scanner.is_last changed textually; the regenerated definitions are still proved equal to the model (ScanSrcEq.v re-compiled)"}
+    return {"status": "reproved", "detail": f"the source of {what} changed textually; the regenerated definitions are still proved equal to the model ({eqf[1]} re-compiled)"}
